@@ -36,10 +36,11 @@ def run(c, chk):
             if p.calls(name):
                 sites[name].append(p)
     chk.analysed = {'paths_through_strtol': len(sites['strtol']), 'paths_through_strtod': len(sites['strtod'])}
-    nsites = sum(1 for n in sites for _ in fn.calls(n))
+    nsites = sum(1 for n in sites for _ in c.deep_calls(fn, n))
     chk.floor('R4.x conversion call sites', nsites, 2)
-    others = [(f.name, n) for f in c.confuse.funcs.values() if f.name != 'cfg_setopt' for n in ('strtol', 'strtod', 'atoi', 'atol', 'atof', 'strtoul')
-              for _ in f.calls(n) if f.name not in ('cfg_getopt_secidx',)]
+    # a helper split off cfg_setopt() or off the path resolver belongs to that function (its calls are on the explored paths)
+    others = [(f.name, n) for f in c.confuse.funcs.values() for n in ('strtol', 'strtod', 'atoi', 'atol', 'atof', 'strtoul')
+              for _ in f.calls(n) if not (c.owners(f.name) <= {'cfg_setopt', 'cfg_getopt_secidx'})]
     for fname, n in others:
         chk.fail('R4.5', 'stray-conversion:%s:%s' % (fname, n), c.where(c.func(fname)), '%s() converts text with %s() outside the checked conversion arm' % (fname, n))
 
